@@ -6,6 +6,7 @@ import BigtreeProofs.Lemmas.ModifyReplace
 import BigtreeProofs.Lemmas.ModifyLeaves
 import BigtreeProofs.Lemmas.ModifyFrame
 import BigtreeProofs.Lemmas.ModifyFrameReplace
+import BigtreeProofs.Lemmas.ModifyObjs
 /-!
 # C08 — shift / copy / replace perform exactly the documented edit and nothing else
 
@@ -1124,5 +1125,134 @@ theorem replace_frame_all_flags_mem (cfg : Cfg) (st st' : St) (pr : Str × Optio
 example : (stepReplace (cfgOf false false false false false true true) (st0 exRep 8)
       (pathStr '/' ['a'] [['y'], ['q']], some (pathStr '/' ['a'] [['D']]))).toOption.isSome = true := by
   decide +kernel
+
+/-! ## nothing is invented, for EVERY flag combination
+
+The *objects* of a tree are the pairs (identity, attributes) of its nodes.  After one pair — whatever the
+flags, same-tree or tree-to-tree, any tree, any strings — every node of the destination tree is an object
+that was in the destination tree before, or (shift only) an object of the tree the from-node was looked
+up in, or a new object whose identity was drawn from the fresh-id counter during this very step.  So no
+attribute of an existing node changes, no existing object is duplicated under its old identity, and a copy
+consists of new objects only. -/
+
+/-- the from-node found by `find_full_path` / `find_path` is made of objects of the searched tree -/
+theorem resolveFrom_objs (cfg : Cfg) (st : St) (f : Str) (fp : List Str) (F : Tree)
+    (h : resolveFrom cfg st f = .ok (some (fp, F))) : ∀ x ∈ objs F, x ∈ objs st.tree := by
+  unfold resolveFrom at h
+  split at h
+  · unfold findFullPath at h
+    split at h
+    · cases h
+    · split at h
+      · cases h
+      · next r rest _ _ =>
+        simp only [Except.ok.injEq] at h
+        cases hg : getRel rest st.tree with
+        | none => simp [hg] at h
+        | some X =>
+          simp only [hg, Option.map_some, Option.some.injEq, Prod.mk.injEq] at h
+          obtain ⟨rfl, rfl⟩ := h
+          exact objs_getRel _ _ _ hg
+  · unfold findPath at h
+    simp only at h
+    split at h
+    · cases h
+    · next m hm =>
+      simp only [Except.ok.injEq, Option.some.injEq] at h; subst h
+      have : (fp, F) ∈ [(fp, F)] := by simp
+      rw [← hm] at this
+      exact objs_nodesRel st.tree (fp, F) (List.mem_filter.1 this).1
+    · cases h
+
+theorem nothing_invented_step (cfg : Cfg) (st st' : St) (pr : Str × Option Str)
+    (h : step cfg st pr = .ok st') :
+    st.next ≤ st'.next ∧
+    ∀ x ∈ objs st'.dst,
+      x ∈ objs st.dst ∨ (cfg.copy = false ∧ x ∈ objs st.tree) ∨ (st.next ≤ x.1 ∧ x.1 < st'.next) := by
+  cases hres : resolveFrom cfg st pr.1 with
+  | error e => simp [step, hres] at h
+  | ok o =>
+    cases o with
+    | none =>
+      simp only [step, hres] at h
+      split at h
+      · simp only [Except.ok.injEq] at h; subst h
+        exact ⟨Nat.le_refl _, fun x hx => Or.inl hx⟩
+      · cases h
+    | some y =>
+      obtain ⟨fp, F⟩ := y
+      obtain ⟨hn, hk⟩ := Modify.step_objs hres h
+      refine ⟨hn, fun x hx => ?_⟩
+      rcases hk x hx with h1 | h1
+      · rw [List.mem_append] at h1
+        rcases h1 with h1 | h1
+        · exact Or.inl h1
+        · cases hc : cfg.copy with
+          | true => simp [hc] at h1
+          | false =>
+            simp only [hc, Bool.false_eq_true, if_false] at h1
+            exact Or.inr (Or.inl ⟨rfl, resolveFrom_objs cfg st pr.1 fp F hres x h1⟩)
+      · exact Or.inr (Or.inr h1)
+
+/-- … lifted to a whole pair list: every object of the final tree was in one of the two trees at the start
+or was created during the call -/
+theorem nothing_invented (cfg : Cfg) : ∀ (ps : List (Str × Option Str)) (st st' : St),
+    loop cfg st ps = .ok st' →
+    st.next ≤ st'.next ∧
+    ∀ x ∈ objs st'.dst,
+      x ∈ objs st.dst ∨ (cfg.copy = false ∧ x ∈ objs st.tree) ∨ (st.next ≤ x.1 ∧ x.1 < st'.next)
+  | [], st, st', h => by
+    simp only [loop, Except.ok.injEq] at h; subst h
+    exact ⟨Nat.le_refl _, fun x hx => Or.inl hx⟩
+  | p :: ps, st, st', h => by
+    simp only [loop] at h
+    cases hs : step cfg st p with
+    | error e => simp [hs] at h
+    | ok s1 =>
+      simp only [hs] at h
+      obtain ⟨hn1, hk1⟩ := nothing_invented_step cfg st s1 p hs
+      obtain ⟨hn2, hk2⟩ := nothing_invented cfg ps s1 st' h
+      have htree : ∀ x ∈ objs s1.tree, x ∈ objs st.tree ∨ x ∈ objs s1.dst := by
+        intro x hx
+        have hsrc : s1.src = st.src := (step_name hs).2
+        unfold St.tree at hx ⊢
+        rw [hsrc] at hx
+        cases hso : st.src with
+        | none => rw [hso] at hx; exact Or.inr (by simpa using hx)
+        | some s => rw [hso] at hx; exact Or.inl (by simpa using hx)
+      refine ⟨by omega, fun x hx => ?_⟩
+      have lift1 : x ∈ objs s1.dst →
+          x ∈ objs st.dst ∨ (cfg.copy = false ∧ x ∈ objs st.tree) ∨ (st.next ≤ x.1 ∧ x.1 < st'.next) := by
+        intro h1
+        rcases hk1 x h1 with h2 | h2 | h2
+        · exact Or.inl h2
+        · exact Or.inr (Or.inl h2)
+        · exact Or.inr (Or.inr ⟨h2.1, by omega⟩)
+      rcases hk2 x hx with h1 | ⟨hc, h1⟩ | h1
+      · exact lift1 h1
+      · rcases htree x h1 with h2 | h2
+        · exact Or.inr (Or.inl ⟨hc, h2⟩)
+        · exact lift1 h2
+      · exact Or.inr (Or.inr ⟨by omega, h1.2⟩)
+
+/-- the public call (`shift_nodes`, `copy_nodes`, `copy_nodes_from_tree_to_tree`, any number of pairs) -/
+theorem nothing_invented_call (cfg : Cfg) (st st' : St) (ps : List (Str × Option Str))
+    (h : copyOrShift cfg st ps = .ok st') :
+    st.next ≤ st'.next ∧
+    ∀ x ∈ objs st'.dst,
+      x ∈ objs st.dst ∨ (cfg.copy = false ∧ x ∈ objs st.tree) ∨ (st.next ≤ x.1 ∧ x.1 < st'.next) := by
+  unfold copyOrShift at h
+  split at h
+  · exact nothing_invented cfg _ st st' h
+  · simp at h
+
+-- non-vacuity: the copy + merge_children + delete_children call on `exTree3` above; objects 0..8 are old,
+-- the copy of `a` took 9..12 (9 and 11 are not attached: `a` itself is merged away, `w` is a deleted child)
+example : objs (.node 0 ['r'] [] [
+        .node 1 ['a'] [] [.node 2 ['x'] [(['k'], .int 7)] [.node 8 ['w'] [] []], .node 3 ['y'] [] []],
+        .node 4 ['b'] [] [.node 5 ['a'] [] [.node 6 ['z'] [] [], .node 10 ['x'] [(['k'], .int 7)] [], .node 12 ['y'] [] []]],
+        .node 7 ['c'] [] []])
+    = [(0, []), (1, []), (2, [(['k'], .int 7)]), (8, []), (3, []), (4, []), (5, []), (6, []),
+       (10, [(['k'], .int 7)]), (12, []), (7, [])] := by decide +kernel
 
 end C08
